@@ -21,7 +21,7 @@ impl BitWriter {
     /// documented contract of BitWriter::write_bits
     #[verifier::external_body]
     pub fn write_bits<T: Into<u64> + Copy>(&mut self, bits: T, num_bits: usize)
-        requires num_bits <= 64, fits(into_u64(bits), num_bits),
+        requires num_bits <= 63, fits(into_u64(bits), num_bits),     // the domain Kani unit BW1 proves write_bits on
         ensures final(self).idx() == old(self).idx() + num_bits, final(self).tables() == old(self).tables(),
     { unimplemented!() }
     #[verifier::external_body]
